@@ -22,6 +22,15 @@ CHECKS = {
     design="6/C19", technique="Coq proof (per-constructor spec theorems, _refuted witness) + exhaustive differential correspondence"),
 }
 
+CHECKS["C01"] = dict(
+    text="Per-key refinement theorems proved for all caches, filters, lists (duplicates, malformed versions, empty) and events: sync_refines_spec, update_refines_spec, history_refines_spec (every finite op sequence from every initial filter), cached_satisfy_filter, no_version_regress, unlisted/deleted absent, cache_never_panics (the Accept(nil) site is unreachable). Tied to cache.go by an exact differential test of doSync/doUpdate/doRefilter (verif export) against the extracted model: BFS from every reachable state of the 2-key x 6-version x 2-label x 4-filter universe x every update and every list of length <=2, plus random walks over larger universes.",
+    note="Modelled not verified: strconv.Atoi (Base.atoi), Go map semantics. The model is of the code after the fix: commits for D1 and D2.",
+    design="6/C01", technique="Coq proof (per-key refinement to a reference semantics, induction over op lists) + exhaustive differential correspondence via extracted model")
+CHECKS["C02"] = dict(
+    text="events_replay_exact, events_wellformed, no_change_no_event / event_changes proved for every reachable state and every next operation with arbitrary arguments. Correspondence: same runs as C01 comparing emitted events with the extracted model, and evaluating the extracted replay oracle and the minimality oracle on the implementation's own events and contents.",
+    note="Event order inside one batch is free (creates/updates in order, deletes as multiset).",
+    design="6/C02", technique="Coq proof (replay algebra, loop invariants) + differential correspondence and extracted replay oracle on implementation events")
+
 PENDING = {}
 
 def main():
@@ -65,6 +74,6 @@ def main():
     }
     json.dump(m, open(os.path.join(ROOT, "MANIFEST.json"), "w"), indent=1)
 
-HOOK_COMMITS = []
+HOOK_COMMITS = ["f59e4bd"]
 if __name__ == "__main__":
     main()
